@@ -147,9 +147,8 @@ Proof.
   { unfold vb_hist_disjointb. apply forallb_forall. intros q Hq.
     destruct (existsb _ (t_kids q)) eqn:E; [|reflexivity]. apply existsb_exists in E as (k & Hk & Hd).
     pose proof (kinds_kid t q k K Hq Hk) as E. destruct (t_kind k); discriminate. }
-  rewrite A, C. unfold vb_default_properb, vb_initial_properb. rewrite !B; [reflexivity | |].
-  - intros k. destruct k; try discriminate; reflexivity.
-  - intros k. destruct k; try discriminate; reflexivity.
+  rewrite A, C. unfold vb_initial_properb. rewrite B; [reflexivity|].
+  intros k. destruct k; try discriminate; reflexivity.
 Qed.
 
 Theorem validated_core_wf_init_lemma t : ct_kindsb t = true -> vb_docb t = true -> vb_hidden_freshb t = true -> validated t ->
@@ -197,11 +196,12 @@ Definition vtr (v : N) (ev : option bytes) (tg : option (list N)) : ttrans :=
 Definition vnd (k : skind) (s : N) (ini : option (list N)) (trl : list ttrans) (kids : list tree) : tree :=
   TNode k s ini trl [] [] [] kids.
 
-Definition validatedb (t : tree) : bool :=
-  match validate vv_fixed (gdoc_of_tree t) with Ok l => no_fatal l | _ => false end.
+Definition validatedb_v (v : vvariant) (t : tree) : bool :=
+  match validate v (gdoc_of_tree t) with Ok l => no_fatal l | _ => false end.
+Definition validatedb : tree -> bool := validatedb_v vv_fixed.
 
 Lemma validatedb_validated t : validatedb t = true -> validated t.
-Proof. unfold validatedb, validated. destruct (validate vv_fixed (gdoc_of_tree t)) as [l| |]; try discriminate. intros H. now exists l. Qed.
+Proof. unfold validatedb, validatedb_v, validated. destruct (validate vv_fixed (gdoc_of_tree t)) as [l| |]; try discriminate. intros H. now exists l. Qed.
 
 Definition side_clauses (t : tree) : list bool :=
   [vb_docb t; vb_hidden_freshb t; ct_rootb t; vb_hist_parentb t; vb_default_properb t; vb_initial_properb t; vb_hist_disjointb t].
@@ -213,10 +213,11 @@ Definition final_cfg_fast (t : tree) (evs : list bytes) (fuel : nat) : list nat 
 
 (* a validated document that meets every side condition but the one marked false, and a run of both engine models
    that ends in an illegal configuration *)
-Definition breaks (t : tree) (clauses : list bool) (evs : list bytes) : Prop :=
-  validatedb t = true /\ side_clauses t = clauses /\
+Definition breaks_v (v : vvariant) (t : tree) (clauses : list bool) (evs : list bytes) : Prop :=
+  validatedb_v v t = true /\ side_clauses t = clauses /\
   legal_configb (flatten false t) (final_cfg_large t evs 30) = false /\
   legal_configb (flatten false t) (final_cfg_fast t evs 30) = false.
+Definition breaks : tree -> list bool -> list bytes -> Prop := breaks_v vv_fixed.
 
 (* C02-K1 IS ACCEPTED BY THE VALIDATOR: the document kho_tree (a deep history above a state that owns a history)
    validates without fatal issue and fails only vb_hist_disjointb *)
@@ -224,12 +225,14 @@ Lemma hist_disjoint_needed_refuted : breaks kho_tree [true; true; true; true; tr
 Proof. vm_compute. repeat split; reflexivity. Qed.
 
 (* <history id="s2"><transition target="s2"/></history>: the default transition of a history names the history itself.
-   Accepted by the validator (the scope check only asks for a child of the parent); on e the state s1 is left without
-   an active child *)
+   Accepted by the validator WITHOUT the check of patches/C19-history-default-pseudo-target.diff (vv_hist_unchecked:
+   the scope check only asks for a child of the parent); on e the state s1 is left without an active child.  The
+   repaired validator (vv_fixed) reports it. *)
 Definition w_hist_self : tree :=
   vnd KScxml 0 None []
     [vnd KState 1 None [] [vnd KHistShallow 2 None [vtr 100 None (Some [2])] []; vnd KState 3 None [vtr 101 (Some [101]) (Some [2])] []]].
-Lemma default_proper_needed_refuted : breaks w_hist_self [true; true; true; true; false; true; true] [[101]].
+Lemma default_proper_needed_refuted :
+  breaks_v vv_hist_unchecked w_hist_self [true; true; true; true; false; true; true] [[101]] /\ validatedb w_hist_self = false.
 Proof. vm_compute. repeat split; reflexivity. Qed.
 
 (* ... or another history whose default transition names the first one *)
@@ -237,7 +240,8 @@ Definition w_hist_cycle : tree :=
   vnd KScxml 0 None []
     [vnd KState 1 None [] [vnd KHistShallow 2 None [vtr 100 None (Some [4])] []; vnd KHistShallow 4 None [vtr 102 None (Some [2])] [];
                            vnd KState 3 None [vtr 101 (Some [101]) (Some [2])] []]].
-Lemma default_proper_needed_cycle_refuted : breaks w_hist_cycle [true; true; true; true; false; true; true] [[101]].
+Lemma default_proper_needed_cycle_refuted :
+  breaks_v vv_hist_unchecked w_hist_cycle [true; true; true; true; false; true; true] [[101]] /\ validatedb w_hist_cycle = false.
 Proof. vm_compute. repeat split; reflexivity. Qed.
 
 (* <scxml/> without any state is accepted; the run is initialised with an empty configuration *)
@@ -297,3 +301,13 @@ Example limits_outside_wf_hist :
   wf_histb (flatten false w_initial_to_hist) = false /\
   legal_configb (flatten false w_initial_to_hist) (final_cfg_large w_initial_to_hist [[101]; [102]; [103]] 30) = true.
 Proof. vm_compute. repeat split; reflexivity. Qed.
+
+(* the former side condition vb_default_properb follows from a clean validation (check IHistPseudoTarget) *)
+Theorem validated_default_proper_lemma t : vb_docb t = true -> vb_hidden_freshb t = true -> validated t -> vb_default_properb t = true.
+Proof.
+  intros Hd Hf (l & Hv & Hn). pose proof (validated_tree_lemma t l Hd Hf Hv Hn) as V.
+  unfold vb_default_properb, vb_pseudo_properb. apply forallb_forall. intros p Hp. apply forallb_forall. intros h Hh.
+  destruct (is_hist_kind (t_kind h)) eqn:Eh; [|reflexivity].
+  destruct (vt_history t V p h Hp Hh Eh) as (x & tl & Ex & El & _ & _ & _ & Hpr). rewrite Ex. cbn [forallb]. rewrite El, andb_true_r.
+  apply forallb_forall. intros s Hs. apply memN_In. now apply Hpr.
+Qed.
